@@ -449,3 +449,142 @@ pub fn shape_violation(b: &AnyBuilder, p: BddPtr, above: Option<usize>) -> Optio
         }
     }
 }
+
+// ---------------------------------------------------------------- sparse, large variable labels
+
+/// text of a program (inverse of `parse`, without the tail)
+pub fn prog_text(p: &Prog) -> String {
+    let mut s = format!("{}", p.nvars);
+    for x in &p.var_to_pos { s.push_str(&format!(" {x}")); }
+    s.push_str(&match p.lru { None => " a".to_string(), Some(c) => format!(" l{c}") });
+    s.push_str(&format!(" {}", p.tblcap));
+    for op in &p.ops {
+        match op {
+            Op::Const(true) => s.push_str(" t"),
+            Op::Const(false) => s.push_str(" f"),
+            Op::Var(v, b) => s.push_str(&format!(" v {v} {}", *b as u8)),
+            Op::Neg(i) => s.push_str(&format!(" n {i}")),
+            Op::And(i, j) => s.push_str(&format!(" a {i} {j}")),
+            Op::Or(i, j) => s.push_str(&format!(" o {i} {j}")),
+            Op::Xor(i, j) => s.push_str(&format!(" x {i} {j}")),
+            Op::Iff(i, j) => s.push_str(&format!(" e {i} {j}")),
+            Op::Ite(i, j, k) => s.push_str(&format!(" i {i} {j} {k}")),
+            Op::Cond(i, v, b) => s.push_str(&format!(" c {i} {v} {}", *b as u8)),
+            Op::CondModel(i, l) => { s.push_str(&format!(" m {i} {}", l.len())); for (v, b) in l { s.push_str(&format!(" {v} {}", *b as u8)); } }
+            Op::Exists(i, v) => s.push_str(&format!(" q {i} {v}")),
+            Op::Compose(i, v, j) => s.push_str(&format!(" p {i} {v} {j}")),
+            Op::AndLst(l) => { s.push_str(&format!(" A {}", l.len())); for i in l { s.push_str(&format!(" {i}")); } }
+            Op::OrLst(l) => { s.push_str(&format!(" O {}", l.len())); for i in l { s.push_str(&format!(" {i}")); } }
+            Op::NewVar(b) => s.push_str(&format!(" N {}", *b as u8)),
+        }
+    }
+    s
+}
+
+/// the same program with every initial variable v renamed to f(v) (run-time variables keep their
+/// position after the initial ones)
+pub fn relabel_prog(p: &Prog, nvars: usize, var_to_pos: Vec<usize>, f: &dyn Fn(u64) -> u64) -> Prog {
+    let old_n = p.nvars as u64;
+    let g = |v: u64| if v < old_n { f(v) } else { nvars as u64 + (v - old_n) };
+    let ops = p.ops.iter().map(|op| match op {
+        Op::Var(v, b) => Op::Var(g(*v), *b),
+        Op::Cond(i, v, b) => Op::Cond(*i, g(*v), *b),
+        Op::CondModel(i, l) => Op::CondModel(*i, l.iter().map(|(v, b)| (g(*v), *b)).collect()),
+        Op::Exists(i, v) => Op::Exists(*i, g(*v)),
+        Op::Compose(i, v, j) => Op::Compose(*i, g(*v), *j),
+        o => o.clone(),
+    }).collect();
+    Prog { nvars, var_to_pos, lru: p.lru, tblcap: p.tblcap, ops, rest: p.rest.clone() }
+}
+
+/// sparse family: a small program whose 2..5 variables carry large labels around the word-size
+/// boundaries (31/32, 63/64, 127/128), several of them congruent modulo 32 / 64, in a builder over
+/// max label + 1 (+ a few) variables, identity or random order
+pub fn gen_sparse_prog(rng: &mut Rng, max_ops: usize) -> String {
+    const SPECIAL: [u64; 16] = [0, 1, 2, 3, 30, 31, 32, 33, 62, 63, 64, 65, 66, 67, 128, 129];
+    let k = rng.range(2, 5);
+    let mut labels: Vec<u64> = vec![];
+    while labels.len() < k {
+        let l = if !labels.is_empty() && rng.chance(1, 2) {
+            let base = *rng.pick(&labels);
+            let m = if rng.chance(3, 4) { 64 } else { 32 };
+            if base >= m && rng.coin() { base - m } else { base + m }
+        } else {
+            *rng.pick(&SPECIAL)
+        };
+        if l <= 131 && !labels.contains(&l) {
+            labels.push(l);
+        }
+    }
+    let o = GenOpts { max_vars: k, max_ops, new_vars: true, small_tables: false };
+    let small = parse(&gen_prog(rng, 95, 100, &o));
+    let k = small.nvars; // gen_prog may have chosen fewer variables
+    let nvars = (*labels[..k].iter().max().unwrap() + 1) as usize + rng.range(0, 2);
+    let perm = if rng.coin() { (0..nvars).collect::<Vec<_>>() } else { rng.perm(nvars) };
+    let big = relabel_prog(&small, nvars, perm, &|v| labels[v as usize]);
+    prog_text(&big)
+}
+
+/// labels a (sparse) program mentions, in increasing order; run-time variables included
+pub fn used_labels(p: &Prog) -> Vec<u64> {
+    let mut u: Vec<u64> = vec![];
+    let mut cur = p.nvars as u64;
+    for op in &p.ops {
+        match op {
+            Op::Var(v, _) | Op::Cond(_, v, _) | Op::Exists(_, v) | Op::Compose(_, v, _) => u.push(*v),
+            Op::CondModel(_, l) => u.extend(l.iter().map(|x| x.0)),
+            Op::NewVar(_) => { u.push(cur); cur += 1 }
+            _ => (),
+        }
+    }
+    u.sort();
+    u.dedup();
+    u
+}
+
+/// oracle for sparse programs: specification tables over the used labels only (bit i = i-th used
+/// label) and the diagram's table under the same numbering; Err if a diagram tests another label
+pub fn sparse_tables(p: &Prog, pool: &[BddPtr]) -> Result<(Vec<Table>, Vec<Table>), String> {
+    let used = used_labels(p);
+    let initial: Vec<u64> = used.iter().cloned().filter(|l| (*l as usize) < p.nvars).collect();
+    let bit = |l: u64| used.iter().position(|u| *u == l);
+    // compressed program: initial labels -> 0..k-1 (run-time variables follow, in the same order)
+    let small = relabel_prog_inv(p, &initial);
+    let spec = spec_tables(&small);
+    fn eval(q: BddPtr, a: usize, bit: &dyn Fn(u64) -> Option<usize>) -> Result<bool, String> {
+        match q {
+            BddPtr::PtrTrue => Ok(true),
+            BddPtr::PtrFalse => Ok(false),
+            BddPtr::Reg(n) | BddPtr::Compl(n) => {
+                let b = bit(n.var.value()).ok_or(format!("a node tests variable {}, which the program never mentions", n.var.value()))?;
+                let r = if (a >> b) & 1 == 1 { eval(n.high, a, bit)? } else { eval(n.low, a, bit)? };
+                Ok(if matches!(q, BddPtr::Compl(_)) { !r } else { r })
+            }
+        }
+    }
+    let k = used.len();
+    let mut got = vec![];
+    for q in pool {
+        let mut t = vec![];
+        for a in 0..(1usize << k) {
+            t.push(eval(*q, a, &bit)?);
+        }
+        got.push(t);
+    }
+    Ok((spec, got))
+}
+
+fn relabel_prog_inv(p: &Prog, initial: &[u64]) -> Prog {
+    let k = initial.len();
+    let n = p.nvars as u64;
+    let g = |v: u64| if v < n { initial.iter().position(|u| *u == v).unwrap() as u64 } else { k as u64 + (v - n) };
+    let ops = p.ops.iter().map(|op| match op {
+        Op::Var(v, b) => Op::Var(g(*v), *b),
+        Op::Cond(i, v, b) => Op::Cond(*i, g(*v), *b),
+        Op::CondModel(i, l) => Op::CondModel(*i, l.iter().map(|(v, b)| (g(*v), *b)).collect()),
+        Op::Exists(i, v) => Op::Exists(*i, g(*v)),
+        Op::Compose(i, v, j) => Op::Compose(*i, g(*v), *j),
+        o => o.clone(),
+    }).collect();
+    Prog { nvars: k, var_to_pos: (0..k).collect(), lru: p.lru, tblcap: p.tblcap, ops, rest: vec![] }
+}
